@@ -310,6 +310,22 @@ fn res_dsl(plan: &EnumPlan, r: &Res, target: &str) -> String {
     }
 }
 
+/// Member / variant instruction name for one direction: the fallible spelling (exact level) when that direction is
+/// fallible and the tape says so, else the infallible one (fallback level).
+fn dir_name(t: &mut Tape, plan: &EnumPlan, base: &str) -> String {
+    let (ks, _) = trait_name_cells(base).unwrap();
+    let all_fallible = ks.iter().all(|k| !plan.cells[0][*k]) && ks.iter().any(|k| plan.cells[1][*k]);
+    if all_fallible && t.coin() {
+        match base {
+            "owned_into" => "owned_try_into".into(),
+            "ref_into" => "ref_try_into".into(),
+            b => format!("try_{}", b),
+        }
+    } else {
+        base.to_string()
+    }
+}
+
 pub fn render(t: &mut Tape, plan: &EnumPlan, core_only: bool) -> E2Case {
     let mut labels: Vec<String> = vec![format!("variants:{}", plan.variants.len())];
     let mut facts: Vec<String> = vec![];
@@ -355,24 +371,29 @@ pub fn render(t: &mut Tape, plan: &EnumPlan, core_only: bool) -> E2Case {
                     let mk = |deref: &str, op: &str| format!("~({})", (0..n).map(|i| format!("{}f{} {} {}", deref, i, op, c)).collect::<Vec<_>>().join(", "));
                     let member = if renamed { Some(d_name.clone()) } else { None };
                     if plan.has(FO) {
-                        vattrs.push(Instr::Member(MemberInstr { name: "from_owned".into(), ded: None, member: member.clone(), action: Some(mk("", "+")) }));
+                        vattrs.push(Instr::Member(MemberInstr { name: dir_name(t, plan, "from_owned"), ded: None, member: member.clone(), action: Some(mk("", "+")) }));
                     }
                     if plan.has(FR) {
-                        vattrs.push(Instr::Member(MemberInstr { name: "from_ref".into(), ded: None, member: member.clone(), action: Some(mk("*", "+")) }));
+                        vattrs.push(Instr::Member(MemberInstr { name: dir_name(t, plan, "from_ref"), ded: None, member: member.clone(), action: Some(mk("*", "+")) }));
                     }
                     if plan.has(OI) {
-                        vattrs.push(Instr::Member(MemberInstr { name: "owned_into".into(), ded: None, member: member.clone(), action: Some(mk("", "-")) }));
+                        vattrs.push(Instr::Member(MemberInstr { name: dir_name(t, plan, "owned_into"), ded: None, member: member.clone(), action: Some(mk("", "-")) }));
                     }
                     if plan.has(RI) {
-                        vattrs.push(Instr::Member(MemberInstr { name: "ref_into".into(), ded: None, member: member.clone(), action: Some(mk("*", "-")) }));
+                        vattrs.push(Instr::Member(MemberInstr { name: dir_name(t, plan, "ref_into"), ded: None, member: member.clone(), action: Some(mk("*", "-")) }));
                     }
                 } else if renamed {
                     let name = *t.pick(&["map", "map", "from+into"]);
+                    // `map` covers both directions: the fallible spelling only when both directions are fallible
+                    let both_fallible = !plan.cells[0].iter().any(|x| *x);
                     if name == "map" {
-                        vattrs.push(Instr::Member(MemberInstr { name: "map".into(), ded: None, member: Some(d_name.clone()), action: None }));
+                        let n = if both_fallible && t.coin() { "try_map".to_string() } else { "map".to_string() };
+                        vattrs.push(Instr::Member(MemberInstr { name: n, ded: None, member: Some(d_name.clone()), action: None }));
                     } else {
-                        vattrs.push(Instr::Member(MemberInstr { name: "from".into(), ded: None, member: Some(d_name.clone()), action: None }));
-                        vattrs.push(Instr::Member(MemberInstr { name: "into".into(), ded: None, member: Some(d_name.clone()), action: None }));
+                        let nf = dir_name(t, plan, "from");
+                        let ni = dir_name(t, plan, "into");
+                        vattrs.push(Instr::Member(MemberInstr { name: nf, ded: None, member: Some(d_name.clone()), action: None }));
+                        vattrs.push(Instr::Member(MemberInstr { name: ni, ded: None, member: Some(d_name.clone()), action: None }));
                     }
                 }
                 if !d_extra.is_empty() {
@@ -433,10 +454,10 @@ pub fn render(t: &mut Tape, plan: &EnumPlan, core_only: bool) -> E2Case {
                                         fattrs[i].extend(mk("map_owned", &member, o_from.clone()));
                                     } else {
                                         if plan.has(FO) {
-                                            fattrs[i].extend(mk("from_owned", &member, o_from.clone()));
+                                            { let n = dir_name(t, plan, "from_owned"); fattrs[i].extend(mk(&n, &member, o_from.clone())); }
                                         }
                                         if plan.has(OI) {
-                                            fattrs[i].extend(mk("owned_into", &member, o_into.clone()));
+                                            { let n = dir_name(t, plan, "owned_into"); fattrs[i].extend(mk(&n, &member, o_into.clone())); }
                                         }
                                     }
                                     // by-ref flavours bind references: the expression dereferences
@@ -446,10 +467,10 @@ pub fn render(t: &mut Tape, plan: &EnumPlan, core_only: bool) -> E2Case {
                                         fattrs[i].extend(mk("map_ref", &member, r_from.clone()));
                                     } else {
                                         if plan.has(FR) {
-                                            fattrs[i].extend(mk("from_ref", &member, r_from.clone()));
+                                            { let n = dir_name(t, plan, "from_ref"); fattrs[i].extend(mk(&n, &member, r_from.clone())); }
                                         }
                                         if plan.has(RI) {
-                                            fattrs[i].extend(mk("ref_into", &member, r_into.clone()));
+                                            { let n = dir_name(t, plan, "ref_into"); fattrs[i].extend(mk(&n, &member, r_into.clone())); }
                                         }
                                     }
                                 }
